@@ -74,6 +74,9 @@ func runC12(c *core.Ctx) {
 	ownEncodeRules(c, a, "C12-ENCODE")
 	c.MinInstances("C12-STORAGE", 100)
 	storageRules(c, ps, "C12-STORAGE")
+	paramWriteRule(c, "C12-STORAGE")
+	wrappedBufferRule(c, "C12-STORAGE")
+	unsafeRule(c, "C12-STORAGE")
 	poolRules(c)
 	apiInventory(c, a)
 	// positive fixture through an overlay
@@ -542,5 +545,157 @@ func storageRules(c *core.Ctx, ps *pduSet, rule string) {
 		if n > 0 {
 			c.Decide(len(bad) == 0, rule, funcKey(fn)+"#disjoint", c.Prog.Pos(fn.Pos()), fmt.Sprintf("%d part appends: each part built on storage of its own iteration", n), strings.Join(uniq(bad), "; "))
 		}
+	}
+}
+
+// paramWriteRule: which module functions write into a slice they were handed (element stores, copy into, append onto
+// storage rooted at a []T parameter)? Only functions whose contract is to fill a caller-supplied buffer may; a formatter
+// or helper that "tidies" its argument in place changes a decoded value behind its owner's back.
+func paramWriteRule(c *core.Ctx, rule string) {
+	allowed := map[string]string{
+		"datacoding/gsm7encoding.gsm7Decoder.Transform": "transform.Transformer contract: writes dst",
+		"datacoding/gsm7encoding.gsm7Encoder.Transform": "transform.Transformer contract: writes dst",
+	}
+	var fns []*ssa.Function
+	for fn := range ssaFunctions(c.Prog) {
+		if fn.Pkg != nil && load.InModule(fn.Pkg.Pkg) {
+			fns = append(fns, fn)
+		}
+	}
+	sort.Slice(fns, func(i, j int) bool { return funcKey(fns[i]) < funcKey(fns[j]) })
+	n := 0
+	for _, fn := range fns {
+		var writes []string
+		isSliceParam := func(v ssa.Value) (*ssa.Parameter, bool) {
+			p, ok := v.(*ssa.Parameter)
+			if !ok {
+				return nil, false
+			}
+			_, isSlice := p.Type().Underlying().(*types.Slice)
+			return p, isSlice
+		}
+		for _, b := range fn.Blocks {
+			for _, ins := range b.Instrs {
+				switch x := ins.(type) {
+				case *ssa.Store:
+					if ia, ok := x.Addr.(*ssa.IndexAddr); ok {
+						var roots []ssa.Value
+						rootsOf(ia.X, map[ssa.Value]bool{}, &roots)
+						for _, r := range roots {
+							if p, ok := isSliceParam(r); ok {
+								writes = append(writes, "element store into parameter "+p.Name()+" at "+c.Prog.Pos(x.Pos()))
+							}
+						}
+					}
+				case *ssa.Call:
+					bi, ok := x.Call.Value.(*ssa.Builtin)
+					if !ok || bi.Name() != "copy" {
+						continue
+					}
+					var roots []ssa.Value
+					rootsOf(x.Call.Args[0], map[ssa.Value]bool{}, &roots)
+					for _, r := range roots {
+						if p, ok := isSliceParam(r); ok {
+							writes = append(writes, "copy into parameter "+p.Name()+" at "+c.Prog.Pos(x.Pos()))
+						}
+					}
+				}
+			}
+		}
+		if len(writes) == 0 {
+			continue
+		}
+		n++
+		key := funcKey(fn)
+		if why, ok := allowed[key]; ok {
+			c.OK(rule, key+"#param-write", c.Prog.Pos(fn.Pos()), why)
+		} else {
+			c.Fail(rule, key+"#param-write", c.Prog.Pos(fn.Pos()), key+" modifies a slice it was handed ("+strings.Join(uniq(writes), "; ")+"): the caller's value (e.g. a decoded field being printed or encoded) changes behind its back")
+		}
+	}
+	c.Count("functions_writing_into_slice_parameters", n)
+}
+
+// unsafeRule: the ownership argument assumes Go's memory safety; a module package that imports unsafe (or reflect) can
+// alias memory in ways the analysis does not see, so such an import is undecided (fails closed).
+func unsafeRule(c *core.Ctx, rule string) {
+	var bad []string
+	for _, pkg := range c.Prog.Pkgs {
+		for imp := range pkg.Imports {
+			if imp == "unsafe" || imp == "reflect" {
+				bad = append(bad, load.Rel(pkg.PkgPath)+" imports "+imp)
+			}
+		}
+	}
+	sort.Strings(bad)
+	if len(bad) == 0 {
+		c.OK(rule, "module#no-unsafe", "", "no module package imports unsafe or reflect")
+	} else {
+		c.Unknown(rule, "module#no-unsafe", "", strings.Join(bad, "; ")+": memory can be aliased (zero-copy string/[]byte views, header rewriting) outside what the ownership analysis models")
+	}
+}
+
+// wrappedBufferRule: bytes.NewBuffer(x) makes the buffer use x's array. Where x is a caller's slice (the frame handed
+// to NewPacketReader) and the buffer is kept in a struct field, no code may ever write through that field: a Write
+// would land in the caller's frame (after Reset: at its start), i.e. a later decode would overwrite an earlier input.
+func wrappedBufferRule(c *core.Ctx, rule string) {
+	wrapped := map[*types.Var]string{}
+	for fn := range ssaFunctions(c.Prog) {
+		if fn.Pkg == nil || !load.InModule(fn.Pkg.Pkg) {
+			continue
+		}
+		for _, call := range callsTo(fn, "bytes", "NewBuffer") {
+			var roots []ssa.Value
+			rootsOf(call.Call.Args[0], map[ssa.Value]bool{}, &roots)
+			fromParam := false
+			for _, r := range roots {
+				if _, ok := r.(*ssa.Parameter); ok {
+					fromParam = true
+				}
+			}
+			if !fromParam || call.Referrers() == nil {
+				continue
+			}
+			for _, r := range *call.Referrers() {
+				if st, ok := r.(*ssa.Store); ok && st.Val == ssa.Value(call) {
+					if _, f, ok := fieldOfAddr(st.Addr); ok {
+						wrapped[f] = funcKey(fn)
+					}
+				}
+			}
+		}
+	}
+	if len(wrapped) == 0 {
+		c.OK(rule, "wrapped-buffers", "", "no struct field holds a bytes.Buffer built over a caller's slice")
+		return
+	}
+	mutating := map[string]bool{"Write": true, "WriteString": true, "WriteByte": true, "WriteRune": true, "ReadFrom": true, "Grow": true, "AvailableBuffer": true}
+	for f, where := range wrapped {
+		var bad []string
+		for fn := range ssaFunctions(c.Prog) {
+			if fn.Pkg == nil || !load.InModule(fn.Pkg.Pkg) {
+				continue
+			}
+			for _, b := range fn.Blocks {
+				for _, ins := range b.Instrs {
+					call, ok := ins.(*ssa.Call)
+					if !ok {
+						continue
+					}
+					cal := call.Call.StaticCallee()
+					if cal == nil || cal.Signature.Recv() == nil || !strings.HasSuffix(cal.Signature.Recv().Type().String(), "bytes.Buffer") || !mutating[cal.Name()] {
+						continue
+					}
+					if u, ok := call.Call.Args[0].(*ssa.UnOp); ok {
+						if _, ff, ok := fieldOfAddr(u.X); ok && ff == f {
+							bad = append(bad, funcKey(fn)+" calls "+cal.Name()+" at "+c.Prog.Pos(call.Pos()))
+						}
+					}
+				}
+			}
+		}
+		sort.Strings(bad)
+		key := "field:" + fieldOwner(c, f) + "." + f.Name() + "#read-only"
+		c.Decide(len(bad) == 0, rule, key, "", "the buffer built over the caller's slice in "+where+" is only read", "the field holds a bytes.Buffer that uses a caller's slice as its array (built in "+where+"), and it is written: "+strings.Join(bad, "; ")+" - the write lands in that caller's memory")
 	}
 }
